@@ -1219,16 +1219,18 @@ fn collector_clock_case(cx: &mut Ctx, maxb: usize, ops: &[i64], force: bool) {
 }
 
 /// BatchCollector with its background timeout checker on a multi-thread runtime (S-only): one producer adds 0..n with
-/// pauses, `start_timeout_checker` flushes concurrently.  Every batch (from add, from the checker, the final flush)
-/// must be a run of consecutive items, and the batches together must be exactly 0..n - whatever the interleaving.
-fn collector_checker_case(cx: &mut Ctx, maxb: usize, n: usize, pause_every: usize) {
+/// pauses, `start_timeout_checker` flushes concurrently (batch_timeout `timeout_ms`, 0 included).  Every batch (from add,
+/// from the checker, the final flush) must be a run of consecutive items, the batches together must be exactly 0..n -
+/// whatever the interleaving - and once the producer has stopped the checker must flush what is left in the buffer
+/// (polled for up to 2 s): items that sit in the collector for ever have been accepted and never delivered.
+fn collector_checker_case(cx: &mut Ctx, maxb: usize, n: usize, pause_every: usize, timeout_ms: u64) {
     let cell = "BatchCollector/timeout_checker (threads)";
-    let case = json!({"cell": "collector_checker", "kind": 16, "maxb": maxb, "n": n, "pause_every": pause_every, "ops": (0..n as i64).collect::<Vec<i64>>()});
-    cx.sum.eval(cell, &format!("bk {} {} {}", maxb, n, pause_every), n >= 2);
+    let case = json!({"cell": "collector_checker", "kind": 19, "maxb": maxb, "n": n, "pause_every": pause_every, "timeout_ms": timeout_ms, "ops": (0..n as i64).collect::<Vec<i64>>()});
+    cx.sum.eval(cell, &format!("bk {} {} {} {}", maxb, n, pause_every, timeout_ms), n >= 2);
     cx.sum.cell_status(cell, "S-only");
     let r = guarded(|| with_rt(2, async move {
         tokio::time::timeout(HANG, async move {
-            let c: BatchCollector<i64> = BatchCollector::new(maxb, Duration::from_millis(2));
+            let c: BatchCollector<i64> = BatchCollector::new(maxb, Duration::from_millis(timeout_ms));
             let out: Arc<std::sync::Mutex<Vec<Vec<i64>>>> = Arc::new(std::sync::Mutex::new(vec![]));
             let o2 = out.clone();
             let h = c.start_timeout_checker(move |b: Vec<i64>| -> Pin<Box<dyn Future<Output = ()> + Send>> {
@@ -1239,24 +1241,29 @@ fn collector_checker_case(cx: &mut Ctx, maxb: usize, n: usize, pause_every: usiz
                 if let Ok(Some(b)) = c.add(i).await { out.lock().unwrap().push(b); }
                 if pause_every > 0 && (i as usize) % pause_every == pause_every - 1 { tokio::time::sleep(Duration::from_millis(3)).await; }
             }
-            tokio::time::sleep(Duration::from_millis(6)).await;
+            // the producer is done: the checker owes us the rest of the buffer
+            let t0 = Instant::now();
+            while c.len().await > 0 && t0.elapsed() < Duration::from_secs(2) { tokio::time::sleep(Duration::from_millis(1)).await; }
+            let stuck = c.len().await;
+            tokio::time::sleep(Duration::from_millis(2)).await;
             h.abort();
             let _ = h.await;
             if let Ok(Some(b)) = c.flush().await { out.lock().unwrap().push(b); }
             let v = out.lock().unwrap().clone();
-            v
+            (v, stuck)
         }).await
     }));
     match r {
         Err(p) => cx.sum.fail(cell, None, case, &format!("panicked: {}", p)),
         Ok(Err(_)) => cx.sum.fail(cell, None, case, "did not return (8 s)"),
-        Ok(Ok(mut batches)) => {
+        Ok(Ok((mut batches, stuck))) => {
             let broken = batches.iter().find(|b| b.is_empty() || b.windows(2).any(|w| w[1] != w[0] + 1)).cloned();
             batches.sort_by_key(|b| b.first().cloned().unwrap_or(-1));
             let flat: Vec<i64> = batches.iter().flat_map(|b| b.iter().cloned()).collect();
             let want: Vec<i64> = (0..n as i64).collect();
             if let Some(b) = broken { cx.sum.fail(cell, None, case, &format!("the batch {:?} is empty or not a run of consecutive items", b)); }
             else if flat != want { cx.sum.fail(cell, None, case, &format!("the batches {:?} are not the items 0..{} exactly once", batches, n)); }
+            else if stuck > 0 { cx.sum.fail(cell, None, case, &format!("{} items were still in the buffer 2 s after the last add: the timeout checker (batch_timeout {} ms) never flushed them", stuck, timeout_ms)); }
         }
     }
 }
@@ -1379,7 +1386,7 @@ fn run_one(cx: &mut Ctx, c: &Value) {
             let ops: Vec<i64> = ops.into_iter().filter(|&o| o >= 1000 || (1..=3).contains(&o)).collect();
             collector_clock_case(cx, u(&c["maxb"], 2).max(1) as usize, &ops, true)
         }
-        "collector_checker" => collector_checker_case(cx, u(&c["maxb"], 2).max(1) as usize, ops.len(), u(&c["pause_every"], 3) as usize),
+        "collector_checker" => collector_checker_case(cx, u(&c["maxb"], 2).max(1) as usize, ops.len(), u(&c["pause_every"], 3) as usize, u(&c["timeout_ms"], 2)),
         "helper" => helper_case(cx, u(&c["which"], 0).min(6), u(&c["rt"], 0) as usize, u(&c["limit"], 1) as usize, &ops),
         _ => {}
     }
@@ -1754,8 +1761,9 @@ pub fn run(args: &Args) {
             let maxb = *r.pick(&[2usize, 3, 5, 64]);
             let n = r.range(2, 60) as usize;
             let pe = *r.pick(&[0usize, 1, 2, 3, 7]);
+            let tm = *r.pick(&[2u64, 2, 0, 1]);
             cx.rng = r;
-            collector_checker_case(&mut cx, maxb, n, pe);
+            collector_checker_case(&mut cx, maxb, n, pe, tm);
         }
     }
 
